@@ -273,7 +273,13 @@ fn run(kind: &str, input: &Value) -> Value {
             let max = input[0].as_u64().map(|m| m as usize);
             let enabled = input[1].as_bool().unwrap();
             for n in input[2].as_array().unwrap() {
-                std::fs::write(dir.join(n.as_str().unwrap()), b"x").unwrap();
+                let n = n.as_str().unwrap();
+                // only plain file names (a shrunk / hand-written case must never leave the scratch dir)
+                if n.is_empty() || n == "." || n == ".." || n.contains('/') || n.contains('\0') {
+                    let _ = std::fs::remove_dir_all(&dir);
+                    return json!(["invalid"]);
+                }
+                std::fs::write(dir.join(n), b"x").unwrap();
             }
             let mut m = manager(&dir, enabled, max, CheckpointPolicy::AfterEveryBarrier);
             let mut out = Vec::new();
